@@ -275,8 +275,13 @@ pub fn run_schedule<K: HKey>(
             let c = p["c"].as_str().unwrap_or("C");
             let h = st.u.hash_of(c);
             let path = root.join("cas").join(h.relative_path());
-            fs::create_dir_all(path.parent().unwrap()).unwrap();
-            fs::write(&path, st.u.content(c)).unwrap();
+            if p["kind"].as_str() == Some("delete") {
+                // a referenced blob goes missing (the state OrphanStats::missing_blobs reports)
+                let _ = fs::remove_file(&path);
+            } else {
+                fs::create_dir_all(path.parent().unwrap()).unwrap();
+                fs::write(&path, st.u.content(c)).unwrap();
+            }
         }
         st.open();
     }
